@@ -118,6 +118,10 @@ class PropCheck:
         """Wider search on the implementation for a failing input.  -> list of violation dicts."""
         return []
 
+    def classify(self, disagreement):
+        """Finding id (of known_findings.txt) that fully explains this disagreement, or None."""
+        return None
+
     def finding_replays(self):
         """{finding id: callable() -> bool, True when the listed input still fails on the implementation}"""
         return {}
@@ -183,17 +187,33 @@ def run_check(prop, tier, seed):
             disagreements = run.disagreements()
         except Exception:
             infra_error = 'harness crashed: ' + traceback.format_exc()[-3000:]
-    for d in disagreements[:200]:
+    listed = findings.for_property(prop.id)
+    listed_ids = {f['id'] for f in listed}
+    known_hits = collections.Counter()
+    unexplained = []
+    for d in disagreements:
+        try:
+            fid = prop.classify(d)
+        except Exception:
+            fid = None
+        if fid is not None and fid in listed_ids:
+            known_hits[fid] += 1
+        else:
+            unexplained.append(d)
+    for d in unexplained[:200]:
         failures.append({'kind': 'correspondence', 'name': d['section'], 'detail': d})
 
     # 5 known findings replayed on the implementation
-    listed = findings.for_property(prop.id)
     replays = prop.finding_replays()
     known_seen = []
     for f in listed:
         fn = replays.get(f['id'])
         if fn is None:
-            infra_error = infra_error or f'known finding {f["id"]} has no replay function'
+            if known_hits.get(f['id']):
+                print(f'KNOWN-FINDING: property={prop.id} id={f["id"]} {f["what"]}')
+                known_seen.append(f['id'])
+            else:
+                run.notes.append(f'known finding {f["id"]} has no replay function and was not met in this run')
             continue
         try:
             still = fn()
@@ -279,6 +299,7 @@ def run_check(prop, tier, seed):
                             'branch_histogram': dict(s.tags.most_common(40))} for s in run.sections],
         'search': run.search_stats,
         'known_findings_seen': known_seen,
+        'known_finding_hits': dict(known_hits),
         'broken': [{'kind': f['kind'], 'name': f['name']} for f in failures[:20]],
         'leanchecker_ok': checked_by_leanchecker,
         'build_s': round(build_s, 2),
